@@ -21,6 +21,32 @@ from metador_core.packer.utils import pack_file
 from metador_core.util.diff import DiffNode, DirDiff
 
 LOG = []          # (packer, call) -- what the plugin group asked the packer to do
+ATTEMPTS = [0]    # how many such things were tried
+PROBES = []       # names of things a packer must not be able to do with the container it is handed, that were carried out
+
+
+def probe_guards(mc):
+    """Requirements 1 and 2 of the Packer contract, tried from inside a packer: no finalizing (close / commit / discard),
+    no access to data, attribute values or metadata objects already in the container."""
+    def attempt(name, thunk):
+        ATTEMPTS[0] += 1
+        try:
+            thunk()
+            PROBES.append(name)
+        except Exception:
+            pass
+    attempt("close", lambda: mc.close())
+    for meth in ("commit_patch", "discard_patch"):
+        if hasattr(mc, meth):
+            attempt(meth, getattr(mc, meth))
+    found = []
+    mc.visititems(lambda n, node: found.append(node) if not hasattr(node, "keys") else None)
+    for node in found[:2]:
+        attempt("read dataset", lambda node=node: node[()])
+        attempt("read metadata object", lambda node=node: node.meta["core.file"])
+        attempt("metadata get", lambda node=node: (_ for _ in ()).throw(KeyError()) if node.meta.get("core.file") is None else None)
+    # (`node.file` hands out the unrestricted, closable container -- the observation recorded for C15 in DESIGN.md,
+    #  section 5; `file` is not among the navigation primitives the property lists, so it is not probed here)
 
 
 class _Mirror(Packer):
@@ -52,6 +78,7 @@ class _Mirror(Packer):
                 mc.create_group(key)
             elif path.is_file():
                 pack_file(mc, path, target=key)
+        probe_guards(mc)
 
     @classmethod
     @overrides
